@@ -20,7 +20,7 @@ AnyChoices == {[h \in H |-> Rec(i[h], k[h][1], k[h][2], k[h][3], IF k[h][1] = 5 
                    : i \in [H -> {"a", "b"}], k \in [H -> Kinds], w \in [H -> {-1, 0, 1}]}
 
 CodeDevs == {"WgAddInHandler", "TeardownDeletes", "RegBeforeAck", "InheritRace", "LateWill", "TickWipes"}   \* what the code under test does (LimitRace, CloseMissesLate, ReadNil repaired)
-AllDevs == {"LimitRace", "WgAddInHandler", "CloseMissesLate", "TeardownDeletes", "RegBeforeAck", "InheritRace", "LateWill", "ReadNil", "TickWipes"}
+AllDevs == {"LimitRace", "WgAddInHandler", "CloseMissesLate", "TeardownDeletes", "RegBeforeAck", "InheritRace", "LateWill", "ReadNil", "TickWipes", "ExpiryDeletesLive"}
 NoDev == {}
 Dev_LimitRace == {"LimitRace"}
 Dev_WgAddInHandler == {"WgAddInHandler"}
@@ -36,4 +36,8 @@ EnvClose == {"drop", "close"}
 EnvTake == {"drop", "sub", "pub"}
 EnvWill == {"drop", "tick"}
 EnvAll == {"drop", "sub", "pub", "tick", "close"}
+EnvExpire == {"drop", "sub", "expire"}
+Dev_ExpiryDeletesLive == {"ExpiryDeletesLive"}
+(* C14 / C15 with the housekeeping: id "a", persistent and ending sessions *)
+ExpireChoices == {[h \in H |-> Rec("a", 5, k[h][1], k[h][2], -1)] : k \in [H -> {<<TRUE, FALSE>>, <<FALSE, FALSE>>, <<FALSE, TRUE>>}]}
 =================================================================================
